@@ -1,3 +1,5 @@
+//go:build ctextdiff
+
 package ctext_test
 
 import (
@@ -28,7 +30,9 @@ import (
 // counted; anything else fails: it is an interpreter bug or a new finding that
 // must be triaged.
 //
-// Enable with CTEXT_MSL_DIFF=1; -rapid.checks=N scales it.
+// It is behind the build tag ctextdiff (so that the package's tests do not
+// depend on wgen / wref / xrun being buildable) and the environment variable:
+// CTEXT_MSL_DIFF=1 go test -tags ctextdiff -run TestMSLDifferential -rapid.checks=N
 func TestMSLDifferential(t *testing.T) {
 	if os.Getenv("CTEXT_MSL_DIFF") == "" {
 		t.Skip("set CTEXT_MSL_DIFF=1 to run the differential self-test")
